@@ -172,7 +172,8 @@ def apply_semantic(spec, kind, g):
             cells[i][j][0] = -mag * g.uniform(0.1, 2.0)
             return f'tp{tp + 1} asm {a} {c}[{i}][{j}] negative'
         how = rng.choice(g, ['drop_item', 'gap', 'short_core', 'long_core',
-                             'extra_item', 'nan', 'inf'])
+                             'extra_item', 'nan', 'inf', 'overlap_same_hi',
+                             'overlap'])
         typ = [x for x in spec['types'] if x['name'] ==
                spec['positions'][int(a) - 1]['type']][0]
         if how in ('drop_item', 'extra_item') and typ.get('lowfi'):
@@ -191,6 +192,13 @@ def apply_semantic(spec, kind, g):
             if len(pa['zb']) < 3:
                 return None
             spec.setdefault('power_raw_gap', []).append([tp, a])
+        elif how in ('overlap_same_hi', 'overlap'):
+            # overlapping axial power cells: the first cell reaching up to
+            # the last upper bound, or the second cell starting inside the
+            # first (rows edited in the rendered file)
+            if len(pa['zb']) < 3:
+                return None
+            spec.setdefault('power_raw_gap', []).append([tp, a, how])
         elif how == 'short_core':
             pa['zb'] = list(pa['zb'])
             pa['zb'][-1] = world._r(pa['zb'][-1] * g.uniform(0.5, 0.95), 5)
@@ -454,8 +462,11 @@ class C18(Prop):
                     return {'status': 'discard', 'reason':
                             'render:' + type(e).__name__, 'violations': []}
                 if raw_gap:
-                    for tp, a in raw_gap:
-                        _make_gap(os.path.join(d, f'power_{tp + 1}.csv'), a)
+                    for item in raw_gap:
+                        tp, a = item[0], item[1]
+                        how = item[2] if len(item) > 2 else 'gap'
+                        _make_gap(os.path.join(d, f'power_{tp + 1}.csv'), a,
+                                  how)
                 if f and f['class'] == 'file':
                     apply_file_fault(d, f)
                     res['fired']['input.file'] = \
@@ -557,8 +568,9 @@ class C18(Prop):
             yield c
 
 
-def _make_gap(path, a):
-    """open a gap between two axial power cells of assembly a"""
+def _make_gap(path, a, how='gap'):
+    """open a gap between two axial power cells of assembly a, or make
+    them overlap"""
     with open(path) as fh:
         lines = fh.read().splitlines()
     zs = sorted(set(float(ln.split(',')[3]) for ln in lines
@@ -569,8 +581,13 @@ def _make_gap(path, a):
     out = []
     for ln in lines:
         p = ln.split(',')
-        if p[0] == str(a) and float(p[2]) == z:
-            p[2] = repr(z * 1.2)
+        if p[0] == str(a):
+            if how == 'gap' and float(p[2]) == z:
+                p[2] = repr(z * 1.2)
+            elif how == 'overlap' and float(p[2]) == z:
+                p[2] = repr(z * 0.6)
+            elif how == 'overlap_same_hi' and float(p[3]) == z:
+                p[3] = repr(zs[-1])
         out.append(','.join(p))
     with open(path, 'w') as fh:
         fh.write('\n'.join(out) + '\n')
